@@ -338,6 +338,25 @@ def view_call(sim, r, spec, obj, kind):
     return thunk
 
 
+def too_big_for(name, obj, args, kwargs):
+    import math
+    n = len(obj.nodes)
+    try:
+        sizes = [len(m) for m in obj.edges.members()] if not hasattr(obj.edges, "dimembers") else [0]
+    except Exception:
+        sizes = [0]
+    k = max(sizes + [0])
+    if name == "adjacency_tensor":
+        order = kwargs.get("order", args[1] if len(args) > 1 else k - 1)
+        try:
+            return n ** (int(order) + 1) > 2_000_000
+        except Exception:
+            return False
+    if name == "complement":
+        return sum(math.comb(n, j) for j in range(1, k + 1)) > 300_000
+    return False
+
+
 def do_observe(sim, rec):
     w = sim.world
     act = w.actors.get(rec["actor"])
@@ -361,6 +380,11 @@ def do_observe(sim, rec):
             cov[key + "|no_args"] = cov.get(key + "|no_args", 0) + 1
             return rec["actor"]
         args, kwargs = sa
+        if too_big_for(name, obj, args, kwargs):
+            # dense n**(order+1) tensors and complements over millions of subsets: their cost is
+            # in one C-level allocation that no step budget interrupts (63 GB were observed)
+            cov[key + "|skipped_large_input"] = cov.get(key + "|skipped_large_input", 0) + 1
+            return rec["actor"]
         thunk = lambda: getattr(xgi, name)(*args, **kwargs)
     else:
         thunk = view_call(sim, r, fn[5:], obj, act.kind)
